@@ -1,6 +1,6 @@
 //! Utility for Qt naming convention.
 
-use std::collections::HashMap;
+use std::collections::{HashMap, HashSet};
 
 /// File naming rules.
 #[derive(Clone, Debug, Eq, PartialEq)]
@@ -73,6 +73,7 @@ impl Default for FileNameRules {
 #[derive(Clone, Debug, Default)]
 pub struct UniqueNameGenerator {
     used_prefixes: HashMap<String, usize>, // prefix: next count
+    used_names: HashSet<String>,
 }
 
 impl UniqueNameGenerator {
@@ -87,9 +88,14 @@ impl UniqueNameGenerator {
     {
         let prefix = prefix.as_ref();
         let count = self.used_prefixes.entry(prefix.to_owned()).or_insert(0);
-        let id = concat_number_suffix(prefix, *count);
-        *count += 1;
-        id
+        loop {
+            // a name generated for another prefix may conflict: ("foo", 1) vs ("foo1", 0)
+            let id = concat_number_suffix(prefix, *count);
+            *count += 1;
+            if self.used_names.insert(id.clone()) {
+                return id;
+            }
+        }
     }
 
     /// Generates unique name starting with the given `prefix`, and not listed in
@@ -104,18 +110,13 @@ impl UniqueNameGenerator {
     {
         let prefix = prefix.as_ref();
         let count = self.used_prefixes.entry(prefix.to_owned()).or_insert(0);
-        let (n, id) = (*count..=*count + reserved_map.len())
-            .find_map(|n| {
-                let id = concat_number_suffix(prefix, n);
-                if reserved_map.contains_key(&id) {
-                    None
-                } else {
-                    Some((n, id))
-                }
-            })
-            .expect("unused id must be found within N+1 tries");
-        *count = n + 1;
-        id
+        loop {
+            let id = concat_number_suffix(prefix, *count);
+            *count += 1;
+            if !reserved_map.contains_key(&id) && self.used_names.insert(id.clone()) {
+                return id;
+            }
+        }
     }
 }
 
